@@ -28,6 +28,21 @@ func (k *c39) check(o *stepObs) {
 	pre := x.pre(c.bd)
 	if !pre.marked {
 		x.label("unchecked:unmarked-state")
+		// without markers (e.g. a child that exists only as the end of a connection written in a
+		// container's block cannot carry one) elements cannot be followed individually; what
+		// remains: a rename or move removes no object and neither adds nor removes a connection
+		if pj := postBoard(o.postBs, c.bp); pj >= 0 {
+			post := stateOf(o.postBs[pj].g)
+			if strings.Contains(x.signature(name+":count-changed"), "@") {
+				// imports, dotted keys, inherited targets, nested boards: the listed findings of this
+				// property already cover lost and re-created elements there
+				x.label("unchecked:unmarked-state-in-listed-construct")
+			} else if len(post.objs) < len(pre.objs) || len(post.edges) != len(pre.edges) {
+				x.fail(o.step, name+":count-changed", "%s: %d objects and %d connections before, %d and %d after\n%s", c, len(pre.objs), len(pre.edges), len(post.objs), len(post.edges), o.ctx())
+			} else {
+				x.label("checked:counts-only")
+			}
+		}
 		return
 	}
 	if c.nonRoot && x.okEdits >= 1 {
